@@ -37,6 +37,18 @@ CHECKS = {
  "C19": ("mc-store", "fault enumeration: every destructor call of the last operation and of world teardown panics once, over a BFS of histories",
          "For every history to depth 3/4 over insert/overwrite/remove/entry removal/drain/clear/entity deletion (single, batch, deferred+maintain)/lazy overwrite/builder, for every storage kind: one extra execution per destructor invocation inside the last operation or the teardown, with that invocation panicking; after catch_unwind the ledger must show no second destruction, no observation may return a destroyed value, follow-up operations on untouched entities and the second storage must behave as the model says, and teardown must not panic again.",
          "DESIGN.md §4 C19"),
+ "C06": ("mc-join", "exhaustive shape enumeration: every membership assignment x member form on the real join machinery",
+         "For each of the 18 storage kinds, every content subset of a universe straddling every layer boundary of the hierarchical bit set (0,1,63,64,4095,4096,262143,262144; entities alive, awaiting maintain, pending deletion, dead, dead-and-reused) paired with every subset as a partner bit set: sequential, lending and tuple joins in both member positions, negated, optional, restricted, mutable (marker written through every item, then every direct lookup checked), entries, drain; lookup by entity / by index through the lending iterator for live, dead and stale handles; bit-set combinators and the entities resource; mixed triples; tuple arities 1..16 with every member being the deciding one; compact universes in every insertion order (dense tables permuted).",
+         "DESIGN.md §4 C06"),
+ "C07": ("mc-join", "exhaustive enumeration of every split-decision tree of the real JoinProducer (hook H5) per membership assignment",
+         "For every storage kind, content subset and partner bit set over the boundary universe: every tree of split/fold decisions that rayon's bridge can take is driven over the real JoinProducer::split / fold_with; the union of the leaves' items must equal the sequential join's items (none missing, none twice), for shared, mutable, restricted, negated, optional and entities members; mutations made by leaves must be visible afterwards on exactly the yielded entities.",
+         "DESIGN.md §4 C07"),
+ "C13": ("mc-join", "exhaustive shape enumeration over restricted storages: content subset x subset of items fetched mutably x other-entity handle",
+         "For every storage kind, every content subset of the boundary universe and every subset of items chosen for get_mut: restricted shared / exclusive (lending) / shared-write (non-lending) joins visit exactly the members with values equal to direct lookups, markers appear on exactly the chosen entities, membership is unchanged, other-entity lookups (live with/without component, awaiting maintain, dead, stale-reused) follow the storage's own rule, tracked storages emit Modified for exactly the chosen items; parallel restricted joins: every split tree.",
+         "DESIGN.md §4 C13"),
+ "C16": ("mc-join", "exhaustive enumeration of (entity, amount) sequences with a non-commutative accumulator",
+         "Every sequence of up to 4 (quick) / 5 (thorough) pairs over 3 entities x 2 amounts, built by collect, by add, and by collect+extend at every split point; shared, mutable, lending and consuming (full and partial) joins alone and paired with a storage of every content; per entity the amounts must be concatenated in arrival order, each yielded exactly once, and the amount ledger must balance.",
+         "DESIGN.md §4 C16"),
 }
 
 NOTE = "Bounded exhaustive exploration of the real implementation (no separate model to drift); trusted: hibitset, shred, shrev, crossbeam-queue, rayon, serde as dependencies; bounds are stated in the evidence file."
@@ -70,6 +82,7 @@ def main():
         },
         "engines": [
             {"name": "mc-hist", "path": "/verif/mc/src/hist.rs", "serves_properties": ["C01","C02","C03","C05","C09","C17"], "kind_free_text": "explicit-state BFS; transitions replay the real World API"},
+            {"name": "mc-join", "path": "/verif/mc/src/join.rs", "serves_properties": ["C06","C07","C13","C16"], "kind_free_text": "stateless exhaustive enumeration of join shapes and of every split tree of the real parallel producer"},
             {"name": "mc-store", "path": "/verif/mc/src/store.rs", "serves_properties": ["C04","C08","C12","C19"], "kind_free_text": "explicit-state BFS over storage histories; ledger tokens; destructor-panic injection"},
         ],
         "checks": checks,
